@@ -42,7 +42,7 @@ theorem Workspace.RootOK_iff (ws : Workspace) :
   ⟨fun h => ⟨h.isNode, h.kind⟩, fun h => ⟨h.1, h.2⟩⟩
 
 theorem inv_new {ws : Workspace} (hws : ws.WF) : Inv (IndexCtx.new ws) := by
-  refine ⟨hws, by simp [IndexCtx.new], ?_, by simp [IndexCtx.new], ?_, ?_, ?_, ?_, ?_, ?_⟩
+  refine ⟨hws, by simp [IndexCtx.new], ?_, by simp [IndexCtx.new], ?_, ?_, ?_, ?_, ?_, ?_, ?_, ?_⟩
   · intro f hf
     simp only [IndexCtx.new, List.mem_singleton] at hf
     subst hf
@@ -56,6 +56,13 @@ theorem inv_new {ws : Workspace} (hws : ws.WF) : Inv (IndexCtx.new ws) := by
   · constructor <;> simp [IndexCtx.new]
   · constructor <;> simp [IndexCtx.new]
   · simp [IndexCtx.new]
+  · refine ⟨⟨rfl, trivial, by intro _ _ h; simp [IndexCtx.new] at h, by intro _ _ h; simp [IndexCtx.new] at h⟩,
+      ?_, ?_, ?_, ?_, ?_, ?_, ?_, ?_, ?_, ?_, ?_, ?_⟩
+    all_goals simp [IndexCtx.new]
+  · intro s hs
+    have : s = { kind := .root } := by simpa [IndexCtx.new] using hs
+    subst this
+    exact ⟨by intro n i hi; simp at hi, by intro _ _ h; cases h⟩
 
 theorem clsFree_new (ws : Workspace) : clsFree (IndexCtx.new ws) := by
   intro k hk
@@ -92,6 +99,24 @@ theorem index_ok {ws : Workspace} (hws : ws.WF) (hroot : Workspace.RootOK ws) :
   refine ⟨_, rfl, hp.inv.ids, ?_, ?_, hp.inv.files⟩
   · have := hp.inv.locs; rwa [hwseq] at this
   · have := hp.inv.diags; rwa [hwseq] at this
+
+/-- the hook log of the indexer: every `define` / `reference` sits on a token whose text is the name
+of the symbol, references point to allocated, named symbols -/
+theorem index_names {ws : Workspace} (hws : ws.WF) (hroot : Workspace.RootOK ws) {r : IndexResult}
+    (hr : Index.index ws = .ok r) : r.symbolMap.NamesOK ws := by
+  unfold Index.index at hr
+  have hcast : Ast.sourceFileCast (ws.tree ws.root) = some (ws.tree ws.root) := by
+    simp [Ast.sourceFileCast, hroot.isNode, hroot.kind]
+  rw [hcast] at hr
+  have hI := inv_new hws
+  obtain ⟨_, c', hrun, hp⟩ := indexSourceFile_spec (mkRec_ok ws.depthBound) (Post.refl hI) (clsFree_new ws)
+    (fits_root hws hroot)
+  have hrun' : (indexSourceFile (mkRec ws.depthBound) (ws.tree ws.root)).run (IndexCtx.new ws) = .ok ((), c') := hrun
+  simp only [hrun'] at hr
+  cases hr
+  have hwseq : c'.ws = ws := hp.ext.ws
+  have := hp.inv.names
+  rwa [hwseq] at this
 
 end Index
 end Ide
